@@ -1,3 +1,4 @@
+import PokerVerif.Lemmas.TBGameBlind
 import PokerVerif.Lemmas.TBBasic
 import PokerVerif.Props.C07
 /-!
@@ -48,6 +49,16 @@ theorem C12_update_later_only (s : State) (b : Blind) :
       repeat (first | split | rfl)
   · intro ch ok h
     exact (C12_snapshot _ ch ok h).1
+
+/-- **C12 — the blinds published for a hand are written at its open and by nothing else**: of the 17 kinds of event a
+table can see, only a gate firing or a retry turn *that opens a hand* changes `GameBlindState`, and it then publishes the
+`BlindState` in force at that moment; every other event — level changes, membership calls, settlement, the continue step,
+pause / close / release, refused or failed opens — leaves it exactly as it was. -/
+theorem C12_published_only_at_an_open (s : State) (e : Event) :
+    (step s e).gameBlind = s.gameBlind ∨
+    ((∃ ch ok, (e = .fire ch ok ∧ (gateFire s ch ok).2 = .opened) ∨ (e = .retry ch ok ∧ (retryOpen s ch ok).2 = .opened)) ∧
+      (step s e).gameBlind = some s.blind) :=
+  step_gameBlind s e
 
 /-- **C12 — on a break no hand is opened, the continue step pauses, and a table created on a break starts paused.** -/
 theorem C12_break (s : State) (hb : s.blind.isBreaking = true) :
